@@ -496,17 +496,16 @@ PROPS["C06"] = {
         "On the pinned tree the brick clauses could NOT be claimed: normalize / merge did not terminate on inputs reachable through the public API and rule 4's u32 "
         "sums overflowed (unsound in release builds) -- both repaired (fix: 8a58ccd, known_findings.txt); the proof is for the repaired text and has no arithmetic "
         "precondition left (rule 4's sums are discharged from its guard). Preconditions: min <= max for BrickDomain::widen and BricksDomain::widen / merge (u32 "
-        "subtraction in the threshold test); non-Top operands where the code calls unwrap_value (documented). Trusted: rule 2 (Brick::merge_bricks_with_bound_one) "
-        "by a contract taken from its doc comment (@nobody; the bounded twin c06.br_normalize checks it), BricksDomain::is_less_or_equal / all_bricks_are_top "
+        "subtraction in the threshold test); non-Top operands where the code calls unwrap_value (documented). Rule 2 (Brick::merge_bricks_with_bound_one) is a VERIFIED body since round 4 (only itertools' cartesian_product is behind a shim contract: exactly the pairs, no order; "
+        "the concatenation loop with the closure body verbatim is proved). Trusted: BricksDomain::is_less_or_equal / all_bricks_are_top "
         "assumed to return (widen is proved sound whatever they answer), hypothesis obeys_cmp::<String>(), shim/charincl.rs (3 collect chains as set operations), "
-        "shim/bricks.rs (4 items + u32 min/max), 10 restated derives, the R9 substitutions listed in the units (for-with-continue -> while; zip loop -> index loop; "
+        "shim/bricks.rs (5 items + u32 min/max), 10 restated derives, the R9 substitutions listed in the units (for-with-continue -> while; zip loop -> index loop; "
         "collect chains; set ==), R5 (a panic diverges). Observation, not repaired: CharacterInclusionDomain::merge panics when a certain set is CharacterSet::Top "
         "(reachable only through deserialisation)."),
     "design_ref": "DESIGN.md section 13 (C06)",
     "default_twins": ["c06.ci_merge", "c06.ci_append", "c06.br_brick", "c06.br_append", "c06.br_widen", "c06.br_normalize", "c06.br_merge"],
     "sweep_twins": ["c06.ci_merge", "c06.ci_append", "c06.br_brick", "c06.br_append", "c06.br_widen", "c06.br_normalize", "c06.br_merge", "c06.br_loop"],
     "not_covered": [
-        "body of Brick::merge_bricks_with_bound_one (rule 2): trusted contract, bounded twin",
         "BrickDomain / BricksDomain::is_less_or_equal, all_bricks_are_top (the partial order)",
         "create_float / create_integer / create_char placeholder domains, Display impls",
         "whether widen enforces a finite ascending chain",
@@ -514,8 +513,9 @@ PROPS["C06"] = {
     "assumptions": [
         "HYPOTHESIS vstd::laws_cmp::obeys_cmp::<String>()",
         "shim/charincl.rs: intersection / union / chars collect chains as set operations (std documentation)",
-        "shim/bricks.rs: verif_br_union_collect, verif_br_concat (String + &String), verif_br_vec_to_set, verif_br_set_eq; u32 min / max restated and verified",
-        "@nobody: Brick::merge_bricks_with_bound_one (contract from its doc comment), BricksDomain::is_less_or_equal, all_bricks_are_top (no postcondition)",
+        "shim/bricks.rs: verif_br_union_collect, verif_br_concat (String + &String), verif_br_vec_to_set, verif_br_set_eq, verif_br_cartesian_product (itertools cartesian_product + collect_vec: exactly the pairs of the two sets, no order or multiplicity assumed); u32 min / max restated and verified",
+        "@nobody: BricksDomain::is_less_or_equal, all_bricks_are_top (NO postcondition assumed)",
+        "R9 in merge_bricks_with_bound_one: `.iter().map(|&(a, b)| BODY).collect()` -> explicit insert loop with BODY verbatim; `String + &String` -> verif_br_concat; the cartesian product chain -> verif_br_cartesian_product",
         "restated derives (PartialEq / Eq / Clone) of CharacterSet, CharacterInclusionDomain, Brick, BrickDomain, BricksDomain",
         "R9 substitutions listed in the unit headers; R5 (panic = divergence); vstd specifications of BTreeSet, Vec, String, u32::checked_add",
         "64-bit target (usize = u64)",
